@@ -7,6 +7,14 @@ ROOT = os.path.dirname(os.path.dirname(os.path.abspath(__file__)))
 ALL = [f"C{i:02d}" for i in range(1, 21)]
 
 CLAIMED = {
+    "C19": dict(
+        text="Bounded symbolic execution (CrossHair/z3) of every client parser on class-representative garbage and on every small mutation of valid lines (parse_list_line: only ValueError or a well-typed result; "
+             "parse_mlsx_line total on symbolic Unicode; PASV/EPSV/257 parsers: ordinary exceptions only; parse_response terminates on every line sequence), of Client.list on hostile listings, and of the real "
+             "dispatcher on undecodable / truncated / over-long control lines after every verb prefix with a concurrent second session.",
+        note="Trusted: CrossHair/z3; inputs are exhaustive over the stated alphabets and windows (regular expressions and strptime make free symbolic text intractable). Outside: longer garbage, peers that never send EOL/EOF (C16).",
+        technique="bounded symbolic execution of the real Python code (CrossHair 0.0.110 + z3): parser robustness harnesses over alphabet products and mutation windows",
+        design_ref="DESIGN.md section 3 C19",
+    ),
     "C08": dict(
         text="Bounded symbolic execution (CrossHair/z3), pair by pair: the command line every client method builds for a SYMBOLIC Unicode name -> real parse_command -> get_paths addresses exactly that name; "
              "the client's 257 parser inverts RFC-959 quote doubling for symbolic names and the real server's PWD reply decodes to the same directory; MLSx line round trip on symbolic names; LIST line round trip and "
